@@ -28,7 +28,7 @@ var seqBulk = &SeqCfg{
 }
 
 var seqBulkBig = &SeqCfg{
-	Focus: "bulk-big", Ops: [2]int{3, 6}, NColls: [2]int{1, 1}, InitDocs: []int{1500, 2500, 4000},
+	Focus: "bulk-big", Ops: [2]int{3, 6}, NColls: [2]int{1, 1}, InitDocs: []int{1500, 2500, 4000, 5200},
 	AuditEvery: [2]int{3, 6}, Queries: 0, Backends: []string{BBolt, BBolt, BadgerMem, BadgerDisk, BadgerRaw},
 	W: seqBulk.W, IDStyles: true, BigPad: true,
 }
@@ -49,7 +49,7 @@ var seqSort = &SeqCfg{
 }
 
 var seqSortBig = &SeqCfg{
-	Focus: "sort-big", Ops: [2]int{25, 40}, NColls: [2]int{1, 1}, InitDocs: []int{1100, 1600, 2300},
+	Focus: "sort-big", Ops: [2]int{25, 40}, NColls: [2]int{1, 1}, InitDocs: []int{1100, 1600, 2300, 4500},
 	AuditEvery: [2]int{100, 200}, Queries: 0, Backends: []string{BBolt, BadgerMem, BBolt}, CritPct: 40, SortPct: 95, WinPct: 70,
 	W: weights(map[string]int{"FindAll": 100, "Derived": 15, "Count": 3, "CreateIndex": 3, "DropIndex": 2, "Insert": 0, "InsertOne": 1, "UpdateById": 2, "DeleteById": 2, "Update": 0, "UpdateFunc": 0, "Delete": 0,
 		"CreateCollection": 0, "DropCollection": 0, "Save": 0, "ReplaceById": 0, "CreateByQuery": 0, "Reopen": 0, "HasCollection": 0, "ListCollections": 0, "HasIndex": 0, "ListIndexes": 0, "FindById": 1, "hostileBatchPct": 0}),
@@ -79,7 +79,7 @@ var seqColls = &SeqCfg{
 var seqIndexes = &SeqCfg{
 	Focus: "indexes", Ops: [2]int{30, 60}, NColls: [2]int{1, 2}, InitDocs: []int{0, 3, 10, 30, 0, 3, 10, 30, 120, 700},
 	AuditEvery: [2]int{10, 20}, Queries: 1, Backends: allBackends, AuditAfterIndexOps: true, SortPct: 60,
-	W: weights(map[string]int{"CreateIndex": 22, "DropIndex": 16, "HasIndex": 6, "ListIndexes": 6, "CreateCollection": 1, "DropCollection": 1, "FindAll": 14}),
+	W:           weights(map[string]int{"CreateIndex": 22, "DropIndex": 16, "HasIndex": 6, "ListIndexes": 6, "CreateCollection": 1, "DropCollection": 1, "FindAll": 14}),
 	ForceFields: map[string]gen.Profile{"x": {Kind: gen.PSmallInt, Absent: 10}, "xy": {Kind: gen.PMixedNum, Nil: 10}, "n.a": {Kind: gen.PSmallInt, Absent: 20}, "n.b": {Kind: gen.PString}},
 }
 
@@ -101,57 +101,57 @@ func init() {
 
 	core.Register(&core.PropSpec{
 		ID: "C01", Level: "exploration",
-		Rule: "seeded random histories of public operations over 2-4 collections (indexes absent / created before / after the data) run on the real DB next to the reference model; every FindAll answer is compared with the model (ids, full field trees, Go types). evaluations = oracle comparisons of call outcomes and query answers. A cell <criteria shape | plan kind from the store event log | sort kind | window | index presence> is counted only when the answer was non-empty and not the whole collection.",
+		Rule:        "seeded random histories of public operations over 2-4 collections (indexes absent / created before / after the data) run on the real DB next to the reference model; every FindAll answer is compared with the model (ids, full field trees, Go types). evaluations = oracle comparisons of call outcomes and query answers. A cell <criteria shape | plan kind from the store event log | sort kind | window | index presence> is counted only when the answer was non-empty and not the whole collection.",
 		Assumptions: modelAssumptions,
-		Uses: []core.Use{{E: eGeneral, Quick: 600, Thorough: 15000}},
+		Uses:        []core.Use{{E: eGeneral, Quick: 600, Thorough: 15000}},
 	})
 	core.Register(&core.PropSpec{
 		ID: "C02", Level: "exploration",
-		Rule: "twin collections holding the same documents but different index sets (none / filter field / sort field / unrelated / prefix+dotted siblings), indexes created before the load, after it, mid-history or dropped and re-created; every write goes to all twins, every FindAll/Count runs on all twins and is compared with the model and with the other twins (sets unsorted, sort-key sequences sorted, sizes windowed). A cell <criteria shape | set of plans that ran | sort kind | window> counts only when at least one twin really ran an index plan (store event log) and the answer was non-empty.",
+		Rule:        "twin collections holding the same documents but different index sets (none / filter field / sort field / unrelated / prefix+dotted siblings), indexes created before the load, after it, mid-history or dropped and re-created; every write goes to all twins, every FindAll/Count runs on all twins and is compared with the model and with the other twins (sets unsorted, sort-key sequences sorted, sizes windowed). A cell <criteria shape | set of plans that ran | sort kind | window> counts only when at least one twin really ran an index plan (store event log) and the answer was non-empty.",
 		Assumptions: modelAssumptions,
-		Uses: []core.Use{{E: eTwin, Quick: 600, Thorough: 12000}, {E: eGeneral, Quick: 150, Thorough: 3000}},
+		Uses:        []core.Use{{E: eTwin, Quick: 600, Thorough: 12000}, {E: eGeneral, Quick: 150, Thorough: 3000}},
 	})
 	core.Register(&core.PropSpec{
 		ID: "C03", Level: "exploration",
-		Rule: "bulk Update/UpdateFunc/Delete/DropCollection on collections of 0..4000 documents (padding 0-600 B, ids random/clustered/sequential, 0-3 indexes, criteria and sorts on the rewritten field, both updater styles) on bbolt, badger-mem, badger-disk; the UpdateFunc callback records every invocation (exactly once per selected document, on the pre-call value) and the whole collection is compared with the model after each bulk operation. A cell <operation|backend|size class|#indexes|plan|selected class> counts when >= 2 documents were selected.",
+		Rule:        "bulk Update/UpdateFunc/Delete/DropCollection on collections of 0..4000 documents (padding 0-600 B, ids random/clustered/sequential, 0-3 indexes, criteria and sorts on the rewritten field, both updater styles) on bbolt, badger-mem, badger-disk; the UpdateFunc callback records every invocation (exactly once per selected document, on the pre-call value) and the whole collection is compared with the model after each bulk operation. A cell <operation|backend|size class|#indexes|plan|selected class> counts when >= 2 documents were selected.",
 		Assumptions: modelAssumptions,
-		Uses: []core.Use{{E: eBulk, Quick: 500, Thorough: 10000}, {E: eBulkBig, Quick: 8, Thorough: 300}},
+		Uses:        []core.Use{{E: eBulk, Quick: 500, Thorough: 10000}, {E: eBulkBig, Quick: 8, Thorough: 300}},
 	})
 	core.Register(&core.PropSpec{
 		ID: "C06", Level: "exploration",
-		Rule: "histories skewed to deletes of absent ids, failing operations, drop + re-create of collections and indexes, prefix/dotted sibling indexes, in-place updaters; every 2-6 operations the state-rebuild audit runs: Count/FindAll/model agreement, ordered and range scans through every index vs the model, and the raw key listing of the live store compared key-by-key with a database rebuilt from the logical state (identical key sets, equal decoded values). A cell <preceding operation|backend|#indexes|size class> counts when the audited store held >= 1 index and >= 2 documents.",
+		Rule:        "histories skewed to deletes of absent ids, failing operations, drop + re-create of collections and indexes, prefix/dotted sibling indexes, in-place updaters; every 2-6 operations the state-rebuild audit runs: Count/FindAll/model agreement, ordered and range scans through every index vs the model, and the raw key listing of the live store compared key-by-key with a database rebuilt from the logical state (identical key sets, equal decoded values). A cell <preceding operation|backend|#indexes|size class> counts when the audited store held >= 1 index and >= 2 documents.",
 		Assumptions: append([]string{"the fresh rebuild (CreateCollection, one Insert, CreateIndex) encodes correctly - that is C10/C17's business"}, modelAssumptions...),
-		Uses: []core.Use{{E: eAudit, Quick: 200, Thorough: 5000}},
+		Uses:        []core.Use{{E: eAudit, Quick: 200, Thorough: 5000}},
 	})
 	core.Register(&core.PropSpec{
 		ID: "C08", Level: "exploration",
-		Rule: "collections with duplicate, absent, nil and mixed-type sort keys; 1-3 sort options in all direction spellings (0, 2, -3, ...), skip/limit over {-1,0,1,n-1,n,n+3,random}; the returned sort-key tuple sequence must equal the window of the model's fully sorted sequence (absent = nil, or absent before nil), members distinct, live, matching; unsorted windows must have length min(m,max(0,total-n)). A cell is <shape|plan|sort kind|window|index> with a non-empty, non-total answer.",
+		Rule:        "collections with duplicate, absent, nil and mixed-type sort keys; 1-3 sort options in all direction spellings (0, 2, -3, ...), skip/limit over {-1,0,1,n-1,n,n+3,random}; the returned sort-key tuple sequence must equal the window of the model's fully sorted sequence (absent = nil, or absent before nil), members distinct, live, matching; unsorted windows must have length min(m,max(0,total-n)). A cell is <shape|plan|sort kind|window|index> with a non-empty, non-total answer.",
 		Assumptions: modelAssumptions,
-		Uses: []core.Use{{E: eSort, Quick: 600, Thorough: 12000}, {E: seqEngine("seq-sort-big", seqSortBig), Quick: 8, Thorough: 200}},
+		Uses:        []core.Use{{E: eSort, Quick: 600, Thorough: 12000}, {E: seqEngine("seq-sort-big", seqSortBig), Quick: 8, Thorough: 200}},
 	})
 	core.Register(&core.PropSpec{
 		ID: "C09", Level: "exploration",
-		Rule: "for random queries in states reached by histories that include deletes of absent ids and failed operations: FindAll, Count, Exists, FindFirst and ForEach (full and stopping after 1, 2, k, all) run on the same handle and are compared with each other and the model; a structural fingerprint of the query object is compared before/after every API and builder call; the store event log must show no Set/Delete during reads. A cell <criteria?|sorted?|window?|plan|stop class> counts when FindAll had >= 2 documents.",
+		Rule:        "for random queries in states reached by histories that include deletes of absent ids and failed operations: FindAll, Count, Exists, FindFirst and ForEach (full and stopping after 1, 2, k, all) run on the same handle and are compared with each other and the model; a structural fingerprint of the query object is compared before/after every API and builder call; the store event log must show no Set/Delete during reads. A cell <criteria?|sorted?|window?|plan|stop class> counts when FindAll had >= 2 documents.",
 		Assumptions: modelAssumptions,
-		Uses: []core.Use{{E: eDerived, Quick: 400, Thorough: 12000}, {E: seqEngine("seq-sort-big", seqSortBig), Quick: 4, Thorough: 100}},
+		Uses:        []core.Use{{E: eDerived, Quick: 400, Thorough: 12000}, {E: seqEngine("seq-sort-big", seqSortBig), Quick: 4, Thorough: 100}},
 	})
 	core.Register(&core.PropSpec{
 		ID: "C12", Level: "exploration",
-		Rule: "id-focused histories (single and batched inserts with generated and supplied ids, duplicates and malformed ids at random batch positions, ids reused across collections, Save/ReplaceById with matching and mismatching ids, updates rewriting _id); generated ids are checked by an independent canonical-UUID parser and for uniqueness; after every write FindById is called for every id ever used in every collection and must return nil or the model's document whose _id equals the key. Cells are <operation|outcome class> pairs observed.",
+		Rule:        "id-focused histories (single and batched inserts with generated and supplied ids, duplicates and malformed ids at random batch positions, ids reused across collections, Save/ReplaceById with matching and mismatching ids, updates rewriting _id); generated ids are checked by an independent canonical-UUID parser and for uniqueness; after every write FindById is called for every id ever used in every collection and must return nil or the model's document whose _id equals the key. Cells are <operation|outcome class> pairs observed.",
 		Assumptions: modelAssumptions,
-		Uses: []core.Use{{E: eIDs, Quick: 700, Thorough: 15000}},
+		Uses:        []core.Use{{E: eIDs, Quick: 700, Thorough: 15000}},
 	})
 	core.Register(&core.PropSpec{
 		ID: "C13", Level: "exploration",
-		Rule: "3-6 collections with hostile names (prefix pairs, names that look like key prefixes, unicode, empty) whose documents reuse the same ids; after every write the catalog and the full content, index list and Count of every OTHER collection are compared with the model. Cells are <operation|outcome class> pairs observed.",
+		Rule:        "3-6 collections with hostile names (prefix pairs, names that look like key prefixes, unicode, empty) whose documents reuse the same ids; after every write the catalog and the full content, index list and Count of every OTHER collection are compared with the model. Cells are <operation|outcome class> pairs observed.",
 		Assumptions: modelAssumptions,
-		Uses: []core.Use{{E: eColls, Quick: 700, Thorough: 15000}},
+		Uses:        []core.Use{{E: eColls, Quick: 700, Thorough: 15000}},
 	})
 	core.Register(&core.PropSpec{
 		ID: "C14", Level: "exploration",
-		Rule: "index create/drop interleaved with writes on schemas that always contain x, xy, n.a, n.b (and n); after every index operation the catalog is compared with the model and every surviving index serves an ordered scan in both directions, a range, an equality and a descending range query that are compared with the model; periodic raw-store audits. Cells are <operation|outcome class> pairs plus audit cells.",
+		Rule:        "index create/drop interleaved with writes on schemas that always contain x, xy, n.a, n.b (and n); after every index operation the catalog is compared with the model and every surviving index serves an ordered scan in both directions, a range, an equality and a descending range query that are compared with the model; periodic raw-store audits. Cells are <operation|outcome class> pairs plus audit cells.",
 		Assumptions: modelAssumptions,
-		Uses: []core.Use{{E: eIndexes, Quick: 250, Thorough: 5000}},
+		Uses:        []core.Use{{E: eIndexes, Quick: 250, Thorough: 5000}},
 	})
 
 	eOrder := &core.Engine{Name: "pure-order", Run: RunOrder}
@@ -167,77 +167,78 @@ func init() {
 
 	core.Register(&core.PropSpec{
 		ID: "C10", Level: "exploration",
-		Rule: "the sign of clover's comparison is observed through Criteria.Satisfy (exactly one of Gt/Lt/Eq must hold on a one-field document) and the index key bytes through index.Add on a recording transaction; case 0 enumerates ALL ordered pairs and all triples of a ~220-value boundary pool (integer extremes, 2^53+-1, 2^63+-1, -0.0, +-Inf, subnormals, 0x00/0xFF strings, prefix families, nested and empty containers, times 1700..2261 in several zones), the other cases random pools of 70 values; checked: reflexivity, antisymmetry, transitivity, agreement with the documented order (exact integer/float comparison), and sign(bytes.Compare(key(a),key(b))) = sign(a,b) inside 2^53 / from 1970. A cell is <type a|type b|relation|boundary class a|boundary class b>.",
+		Rule:        "the sign of clover's comparison is observed through Criteria.Satisfy (exactly one of Gt/Lt/Eq must hold on a one-field document) and the index key bytes through index.Add on a recording transaction; case 0 enumerates ALL ordered pairs and all triples of a ~220-value boundary pool (integer extremes, 2^53+-1, 2^63+-1, -0.0, +-Inf, subnormals, 0x00/0xFF strings, prefix families, nested and empty containers, times 1700..2261 in several zones), the other cases random pools of 70 values; checked: reflexivity, antisymmetry, transitivity, agreement with the documented order (exact integer/float comparison), and sign(bytes.Compare(key(a),key(b))) = sign(a,b) inside 2^53 / from 1970. A cell is <type a|type b|relation|boundary class a|boundary class b>.",
 		Assumptions: []string{"an integer beyond 2^53 against a float is outside the property (counted as inconclusive)", "NaN is not generated"},
-		Uses: []core.Use{{E: eOrder, Quick: 300, Thorough: 20000}},
+		Uses:        []core.Use{{E: eOrder, Quick: 300, Thorough: 20000}},
 	})
 	core.Register(&core.PropSpec{
 		ID: "C11", Level: "exploration",
-		Rule: "documents of depth <= 4 with every type at every position (integer extremes, -0.0, +-Inf, empty containers, arbitrary byte strings, times before 1970 / beyond 2262 / with zone offsets and nanoseconds, times inside arrays and inside objects inside arrays) written through Insert, Save, ReplaceById, UpdateById, Update and read back by FindById and FindAll before and after close/reopen, compared by a strict recursive walk (Go type and value at every path, times by instant and offset). A cell is <container path shape>leaf type | backend | before/after reopen>.",
+		Rule:        "documents of depth <= 4 with every type at every position (integer extremes, -0.0, +-Inf, empty containers, arbitrary byte strings, times before 1970 / beyond 2262 / with zone offsets and nanoseconds, times inside arrays and inside objects inside arrays) written through Insert, Save, ReplaceById, UpdateById, Update and read back by FindById and FindAll before and after close/reopen, compared by a strict recursive walk (Go type and value at every path, times by instant and offset). A cell is <container path shape>leaf type | backend | before/after reopen>.",
 		Assumptions: []string{"zone offsets are whole minutes (Go's own time encoding mangles negative sub-minute offsets)"},
-		Uses: []core.Use{{E: eRound, Quick: 1500, Thorough: 40000}},
+		Uses:        []core.Use{{E: eRound, Quick: 1500, Thorough: 40000}},
 	})
 	core.Register(&core.PropSpec{
 		ID: "C15", Level: "exploration",
-		Rule: "(1) one seeded history (ids always supplied) is replayed on bbolt, badger on disk with the shipped default options and badger in memory; the transcripts (outcome class of every call, id sequence of every result, counts, catalog listings, and the outcome class of 27 calls after Close and after a second Close) must be identical line by line, and each is also compared with the model. (2) cursor contract of each adapter against a sorted slice: random key sets with nil and empty values, committed base plus pending sets/deletes, forward and reverse seeks to present / absent / before-first / after-last targets, inside the writing transaction and in a read transaction. Cells: <lockstep backends|length class>, <adapter|direction|target class|tx phase|empty values>.",
+		Rule:        "(1) one seeded history (ids always supplied) is replayed on bbolt, badger on disk with the shipped default options and badger in memory; the transcripts (outcome class of every call, id sequence of every result, counts, catalog listings, and the outcome class of 27 calls after Close and after a second Close) must be identical line by line, and each is also compared with the model. (2) cursor contract of each adapter against a sorted slice: random key sets with nil and empty values, committed base plus pending sets/deletes, forward and reverse seeks to present / absent / before-first / after-last targets, inside the writing transaction and in a read transaction. Cells: <lockstep backends|length class>, <adapter|direction|target class|tx phase|empty values>.",
 		Assumptions: modelAssumptions,
-		Uses: []core.Use{{E: eBackends, Quick: 200, Thorough: 5000}, {E: eCursor, Quick: 1500, Thorough: 40000}},
+		Uses:        []core.Use{{E: eBackends, Quick: 200, Thorough: 5000}, {E: eCursor, Quick: 1500, Thorough: 40000}},
 	})
 	core.Register(&core.PropSpec{
 		ID: "C16", Level: "exploration",
-		Rule: "random <criteria, document> pairs evaluated through Criteria.Satisfy and compared with the model and relationally (double negation, De Morgan, commutativity, Neq = Not(Eq), NotExists = Not(Exists), In = disjunction of equalities, Contains = conjunction of single Contains); the same identities on FindAll result sets of a live database with and without indexes (the planner rewrites negations); the same integer literal supplied as every Go numeric kind, bare / inside In / inside Contains / inside nested slices and maps; Field(name) vs \"$name\" operands to present, nil and absent fields. A cell is <identity|truth value|absent field involved> (both truth values are separate cells), <literal kind|operator|indexed>, <fieldref|operator|target|indexed>.",
+		Rule:        "random <criteria, document> pairs evaluated through Criteria.Satisfy and compared with the model and relationally (double negation, De Morgan, commutativity, Neq = Not(Eq), NotExists = Not(Exists), In = disjunction of equalities, Contains = conjunction of single Contains); the same identities on FindAll result sets of a live database with and without indexes (the planner rewrites negations); the same integer literal supplied as every Go numeric kind, bare / inside In / inside Contains / inside nested slices and maps; Field(name) vs \"$name\" operands to present, nil and absent fields. A cell is <identity|truth value|absent field involved> (both truth values are separate cells), <literal kind|operator|indexed>, <fieldref|operator|target|indexed>.",
 		Assumptions: modelAssumptions,
-		Uses: []core.Use{{E: eCritPure, Quick: 400, Thorough: 8000}, {E: eCritDB, Quick: 300, Thorough: 8000}},
+		Uses:        []core.Use{{E: eCritPure, Quick: 400, Thorough: 8000}, {E: eCritDB, Quick: 300, Thorough: 8000}},
 	})
 	core.Register(&core.PropSpec{
 		ID: "C17", Level: "exploration",
-		Rule: "an index is populated through index.Add on a real transaction of bbolt / badger / the harness's memory store (duplicates, nil, mixed types, sibling indexes on field+'y' and field+'.y', another collection and document keys next to it), then IterateRange runs for ranges whose bounds are drawn from every stored value, neighbours and type boundaries x both inclusivity flags x both directions (at least one non-nil bound, or the nil-only range), inside the writing transaction and after commit; expected = entries whose value lies in the range under the model order; also full Iterate, stop by sentinel and by foreign error after j calls, Intersect (never excludes a common value) and IsEmpty. A cell is <bound types|inclusivity|direction|bound hits a stored value|tx phase|backend> with a non-empty, non-total result.",
+		Rule:        "an index is populated through index.Add on a real transaction of bbolt / badger / the harness's memory store (duplicates, nil, mixed types, sibling indexes on field+'y' and field+'.y', another collection and document keys next to it), then IterateRange runs for ranges whose bounds are drawn from every stored value, neighbours and type boundaries x both inclusivity flags x both directions (at least one non-nil bound, or the nil-only range), inside the writing transaction and after commit; expected = entries whose value lies in the range under the model order; also full Iterate, stop by sentinel and by foreign error after j calls, Intersect (never excludes a common value) and IsEmpty. A cell is <bound types|inclusivity|direction|bound hits a stored value|tx phase|backend> with a non-empty, non-total result.",
 		Assumptions: []string{"order among entries with equal values is not specified and not checked"},
-		Uses: []core.Use{{E: eIndex, Quick: 1200, Thorough: 40000}},
+		Uses:        []core.Use{{E: eIndex, Quick: 1200, Thorough: 40000}},
 	})
 	core.Register(&core.PropSpec{
 		ID: "C18", Level: "exploration",
-		Rule: "Go values filled by reflection over 17 struct types (clover rename / omitempty / both / empty name, json tags, embedded value and pointer, nested, unexported fields, named kinds) and 40 other types (every integer width, floats, pointers up to depth 3 incl. to times, maps, slices, arrays, interfaces) are normalised through Document.Set and NewDocumentOf and compared with an independent reference normaliser; canonical dynamic types everywhere, determinism, idempotence; 15 unsupported values must leave the document unchanged at 4 paths; Set/Get/Has/Fields path laws on random path sequences; struct -> document -> Unmarshal round trip for 14 types. A cell is <Go kind|pointer depth|struct?|normal-form type>, <unsupported type>, <roundtrip type>.",
+		Rule:        "Go values filled by reflection over 17 struct types (clover rename / omitempty / both / empty name, json tags, embedded value and pointer, nested, unexported fields, named kinds) and 40 other types (every integer width, floats, pointers up to depth 3 incl. to times, maps, slices, arrays, interfaces) are normalised through Document.Set and NewDocumentOf and compared with an independent reference normaliser; canonical dynamic types everywhere, determinism, idempotence; 15 unsupported values must leave the document unchanged at 4 paths; Set/Get/Has/Fields path laws on random path sequences; struct -> document -> Unmarshal round trip for 14 types. A cell is <Go kind|pointer depth|struct?|normal-form type>, <unsupported type>, <roundtrip type>.",
 		Assumptions: []string{"[]byte / [N]byte values are outside the domain (clover deliberately keeps byte slices as they are)", "embedded pointers are non-nil; embedded non-struct types are not generated"},
-		Uses: []core.Use{{E: eNorm, Quick: 800, Thorough: 40000}},
+		Uses:        []core.Use{{E: eNorm, Quick: 800, Thorough: 40000}},
 	})
 	core.Register(&core.PropSpec{
 		ID: "C19", Level: "exploration",
-		Rule: "collections of JSON-representable documents (numbers within 2^53, valid UTF-8 incl. escapes, nested maps/slices, times with zones), with or without indexes, are exported (raw store snapshot must be unchanged), imported under a new name and compared document by document with the JSON image of the model; twelve failing imports (existing target, missing file, directory, truncated / non-array / non-object / empty / garbage JSON, malformed and duplicate ids, bad _expiresAt) and two failing exports must leave the raw store byte-identical. A cell is <doc count class|indexed|backend>, <json value shape>, <failure kind|backend>.",
+		Rule:        "collections of JSON-representable documents (numbers within 2^53, valid UTF-8 incl. escapes, nested maps/slices, times with zones), with or without indexes, are exported (raw store snapshot must be unchanged), imported under a new name and compared document by document with the JSON image of the model; twelve failing imports (existing target, missing file, directory, truncated / non-array / non-object / empty / garbage JSON, malformed and duplicate ids, bad _expiresAt) and two failing exports must leave the raw store byte-identical. A cell is <doc count class|indexed|backend>, <json value shape>, <failure kind|backend>.",
 		Assumptions: modelAssumptions,
-		Uses: []core.Use{{E: eExport, Quick: 1000, Thorough: 30000}},
+		Uses:        []core.Use{{E: eExport, Quick: 1000, Thorough: 30000}},
 	})
 	core.Register(&core.PropSpec{
 		ID: "C20", Level: "exploration",
-		Rule: "hostile-call sweep: ~57 criteria shapes that stress the planner's type assertions (negations of In/Like/Exists/Contains/MatchFunc bare and under And/Or, triple and quadruple negation, field-reference operands on indexed fields, nil and container operands, empty In/Contains, odd paths, contradictory ranges, a 14-deep chain) x collection present / dropped / never created x 6 index configurations x 11 sort/skip/limit windows through FindAll, Count, Exists, FindFirst, ForEach, Update, UpdateFunc, Delete; point operations on present and missing documents/collections; the document, query-builder and index APIs with awkward arguments; the whole battery after Close and after a second Close; every call runs under recover(), the worker-death detector and the stall detector. A cell is <criteria shape|collection state|index configuration|backend> or <after-close|operation|outcome|backend>.",
+		Rule:        "hostile-call sweep: ~57 criteria shapes that stress the planner's type assertions (negations of In/Like/Exists/Contains/MatchFunc bare and under And/Or, triple and quadruple negation, field-reference operands on indexed fields, nil and container operands, empty In/Contains, odd paths, contradictory ranges, a 14-deep chain) x collection present / dropped / never created x 6 index configurations x 11 sort/skip/limit windows through FindAll, Count, Exists, FindFirst, ForEach, Update, UpdateFunc, Delete; point operations on present and missing documents/collections; the document, query-builder and index APIs with awkward arguments; the whole battery after Close and after a second Close; every call runs under recover(), the worker-death detector and the stall detector. A cell is <criteria shape|collection state|index configuration|backend> or <after-close|operation|outcome|backend>.",
 		Assumptions: []string{"'never blocks' is decided as bounded progress: no store/API progress and no CPU time for 90 s with a call outstanding", "callbacks do not re-enter the DB"},
-		Uses: []core.Use{{E: eSweep, Quick: 240, Thorough: 5000}, {E: eGeneral, Quick: 100, Thorough: 2000}},
+		Uses:        []core.Use{{E: eSweep, Quick: 240, Thorough: 5000}, {E: eGeneral, Quick: 100, Thorough: 2000}},
 	})
 
 	eFault := &core.Engine{Name: "fault", Run: RunFault}
 	eInvalid := &core.Engine{Name: "invalid-input", Run: RunInvalid}
 	core.Register(&core.PropSpec{
 		ID: "C04", Level: "fault_enumeration",
-		Rule: "for 36 operations (the sixteen write kinds in several variants and every read) on database shapes {empty, 8 docs x 0/1/3 indexes, 60 (thorough 300) docs x 2 indexes} x backends: the operation's store-call trace is learnt on a dry run, then for EVERY listed call position (begin, get, set, delete, cursor item read, commit; exhaustive up to 90 / 260 positions per operation, otherwise first 25 + last 25 + a seeded sample, reported per scenario in exhaustive_parts) the call fails with a marker error, one-shot and sticky; asserted: a non-nil error is returned (reads too), the raw store is byte-identical to the snapshot taken before, no transaction stays open, and follow-up write/read calls work. Invalid-input failures (offending document at batch position 0/2/4, update yielding an invalid document at the first/middle/last selected one with and without sort/skip/limit, missing or existing collection/index/document for every operation, failing imports) use the same before/after snapshot. evaluations = fault runs + invalid-input scenarios; a cell is <operation|failing call kind|phase before-first-write/between-writes/at-commit/at-begin|mode|backend> or <invalid scenario|#indexes|backend>.",
+		Rule:        "for 36 operations (the sixteen write kinds in several variants and every read) on database shapes {empty, 8 docs x 0/1/3 indexes, 60 (thorough 300) docs x 2 indexes} x backends: the operation's store-call trace is learnt on a dry run, then for EVERY listed call position (begin, get, set, delete, cursor item read, commit; exhaustive up to 90 / 260 positions per operation, otherwise first 25 + last 25 + a seeded sample, reported per scenario in exhaustive_parts) the call fails with a marker error, one-shot and sticky; asserted: a non-nil error is returned (reads too), the raw store is byte-identical to the snapshot taken before, no transaction stays open, and follow-up write/read calls work. Invalid-input failures (offending document at batch position 0/2/4, update yielding an invalid document at the first/middle/last selected one with and without sort/skip/limit, missing or existing collection/index/document for every operation, failing imports) use the same before/after snapshot. evaluations = fault runs + invalid-input scenarios; a cell is <operation|failing call kind|phase before-first-write/between-writes/at-commit/at-begin|mode|backend> or <invalid scenario|#indexes|backend>.",
 		Assumptions: []string{"store failures are modelled at the store.Store seam: the k-th call returns an error (sticky: so does every later call of that transaction; a failing Commit rolls the inner transaction back)"},
-		Uses: []core.Use{{E: eFault, Quick: 15, Thorough: 90}, {E: eInvalid, Quick: 120, Thorough: 2000}},
+		Uses:        []core.Use{{E: eFault, Quick: 15, Thorough: 90}, {E: eInvalid, Quick: 120, Thorough: 2000}},
 	})
 
 	eConc := &core.Engine{Name: "conc", Run: RunConc}
+	eConcDisjoint := &core.Engine{Name: "conc-disjoint", Run: RunConcDisjoint}
 	core.Register(&core.PropSpec{
 		ID: "C07", Level: "exploration",
-		Rule: "2-8 goroutines x 6-14 operations on one handle (insert batches with unique tags, point update/replace/delete, bulk update/delete by group, index create/drop, FindAll snapshots, Count, FindById, ListIndexes; one *query.Query and one Criteria shared and extended by all goroutines) with scheduling perturbed at every store call (Gosched / 1-50 us sleeps, seeded); every call is recorded with call/return stamps from one atomic counter and the history is checked by porcupine against a sequential model of the collection (a conflict-rejected operation is accepted only as a no-op; 60 s budget, Unknown = inconclusive); every snapshot read is checked online for torn batches and partly applied bulk updates; the state-rebuild audit runs at quiescence; a quarter of the cases run again in the -race build and every race report whose stacks contain clover frames is a violation. evaluations = recorded operations checked; a cell is an overlapping operation-kind pair actually observed per backend class.",
+		Rule:        "2-8 goroutines x 6-14 operations on one handle (insert batches with unique tags, point update/replace/delete, bulk update/delete by group, index create/drop, FindAll snapshots, Count, FindById, ListIndexes; one *query.Query and one Criteria shared and extended by all goroutines) with scheduling perturbed at every store call (Gosched / 1-50 us sleeps, seeded); every call is recorded with call/return stamps from one atomic counter and the history is checked by porcupine against a sequential model of the collection (a conflict-rejected operation is accepted only as a no-op; 60 s budget, Unknown = inconclusive); every snapshot read is checked online for torn batches and partly applied bulk updates; the state-rebuild audit runs at quiescence; a quarter of the cases run again in the -race build and every race report whose stacks contain clover frames is a violation. evaluations = recorded operations checked; a cell is an overlapping operation-kind pair actually observed per backend class.",
 		Assumptions: []string{"interleavings are sampled, not enumerated: the evidence lists which operation pairs were seen overlapping", "races wholly inside bbolt/badger are logged as external and do not decide"},
-		Uses: []core.Use{{E: eConc, Quick: 600, Thorough: 20000, Race: true}, {E: &core.Engine{Name: "conc-catalog", Run: RunConcCatalog}, Quick: 150, Thorough: 5000, Race: true}},
+		Uses:        []core.Use{{E: eConc, Quick: 600, Thorough: 20000, Race: true}, {E: &core.Engine{Name: "conc-catalog", Run: RunConcCatalog}, Quick: 150, Thorough: 5000, Race: true}, {E: eConcDisjoint, Quick: 100, Thorough: 3000, Race: true}},
 	})
 
 	eCrash := &core.Engine{Name: "crash", Run: RunCrash}
 	eReopen := &core.Engine{Name: "reopen-prefixes", Run: RunReopen}
 	core.Register(&core.PropSpec{
 		ID: "C05", Level: "fault_enumeration",
-		Rule: "a seeded history of 10-20 write operations (inserts, point and bulk updates/deletes with and without sort, index and collection create/drop, ImportCollection, CreateCollectionByQuery, failing batches) is replayed by a CHILD PROCESS that writes a begin mark before and an acknowledgement after every operation; the child is killed (SIGKILL) either by its own store monitor at store call k of operation j - k drawn from 1..calls(j)+1, i.e. every point between two store calls including just before Commit and just after it returned - or by the parent a seeded 0-3000 us after the begin mark on the unmonitored clover.Open path, or by `strace -e inject=pwrite64:signal=SIGKILL:when=N` at the entry of the N-th page write of a thread, i.e. inside bbolt's commit; after every kill the parent reopens the directory and runs the full state-rebuild audit (catalog, documents, Count, every index, raw keys) against the acknowledged state, then against acknowledged + in-flight; anything else is a violation; the child is restarted on the rest of the history (up to 14 / 30 kills per history). A second engine closes and reopens after EVERY prefix of a history in-process and audits. A third engine runs the child on the default bbolt path under strace and checks offline over the syscall log that after the last pwrite64 of every acknowledged operation an fdatasync/fsync completed before the acknowledgement was written (durability ordering - what a kill cannot show). evaluations = reopen+audit rounds; a cell is <in-flight operation kind|phase before-first-write/between-writes/before-commit/after-commit-before-ack/timed|adopted state|backend> or <reopen|operation kind|backend>.",
+		Rule:        "a seeded history of 10-20 write operations (inserts, point and bulk updates/deletes with and without sort, index and collection create/drop, ImportCollection, CreateCollectionByQuery, failing batches) is replayed by a CHILD PROCESS that writes a begin mark before and an acknowledgement after every operation; the child is killed (SIGKILL) either by its own store monitor at store call k of operation j - k drawn from 1..calls(j)+1, i.e. every point between two store calls including just before Commit and just after it returned - or by the parent a seeded 0-3000 us after the begin mark on the unmonitored clover.Open path, or by `strace -e inject=pwrite64:signal=SIGKILL:when=N` at the entry of the N-th page write of a thread, i.e. inside bbolt's commit; after every kill the parent reopens the directory and runs the full state-rebuild audit (catalog, documents, Count, every index, raw keys) against the acknowledged state, then against acknowledged + in-flight; anything else is a violation; the child is restarted on the rest of the history (up to 14 / 30 kills per history). A second engine closes and reopens after EVERY prefix of a history in-process and audits. A third engine runs the child on the default bbolt path under strace and checks offline over the syscall log that after the last pwrite64 of every acknowledged operation an fdatasync/fsync completed before the acknowledgement was written (durability ordering - what a kill cannot show). evaluations = reopen+audit rounds; a cell is <in-flight operation kind|phase before-first-write/between-writes/before-commit/after-commit-before-ack/timed|adopted state|backend> or <reopen|operation kind|backend>.",
 		Assumptions: []string{"a killed process keeps the page cache: power loss and torn sectors are not produced by this check", "badger runs with its default SyncWrites=false"},
-		Uses: []core.Use{{E: eCrash, Quick: 60, Thorough: 2000}, {E: eReopen, Quick: 60, Thorough: 1500}, {E: &core.Engine{Name: "fsync-order", Run: RunFsyncOrder}, Quick: 12, Thorough: 400}, {E: &core.Engine{Name: "crash-artifacts", Run: RunCrashArtifacts}, Quick: 10, Thorough: 200}},
+		Uses:        []core.Use{{E: eCrash, Quick: 60, Thorough: 2000}, {E: eReopen, Quick: 60, Thorough: 1500}, {E: &core.Engine{Name: "fsync-order", Run: RunFsyncOrder}, Quick: 12, Thorough: 400}, {E: &core.Engine{Name: "crash-artifacts", Run: RunCrashArtifacts}, Quick: 10, Thorough: 200}},
 	})
 
 	// concurrent variants of sequentially stated clauses: a few concurrent histories in the checks whose statement they can break
@@ -246,7 +247,14 @@ func init() {
 		core.Registry[id].Uses = append(core.Registry[id].Uses, core.Use{E: eConcCat, Quick: n[0], Thorough: n[1]})
 		core.Registry[id].Rule += " Plus concurrent creations/imports of one collection name by 2-6 goroutines (exactly one may succeed, nothing acknowledged may be lost)."
 	}
-	for id, n := range map[string][2]int{"C06": {120, 2000}, "C12": {120, 2000}} {
+	eOversized := &core.Engine{Name: "oversized", Run: RunOversized}
+	for _, id := range []string{"C03", "C06", "C09", "C15"} {
+		core.Registry[id].Uses = append(core.Registry[id].Uses, core.Use{E: eOversized, Quick: 3, Thorough: 12})
+		core.Registry[id].Rule += " Plus operations beyond badger's default transaction size that fail at their very end (no trace may remain, on bbolt and badger alike)."
+	}
+	core.Registry["C03"].Uses = append(core.Registry["C03"].Uses, core.Use{E: eConcDisjoint, Quick: 80, Thorough: 2000})
+	core.Registry["C03"].Rule += " Plus concurrent bulk operations by two goroutines on two different collections of one handle (each collection must end as if its goroutine ran alone)."
+	for id, n := range map[string][2]int{"C06": {120, 2000}, "C12": {120, 2000}, "C14": {100, 2000}, "C04": {80, 1500}} {
 		core.Registry[id].Uses = append(core.Registry[id].Uses, core.Use{E: eConc, Quick: n[0], Thorough: n[1]})
 		core.Registry[id].Rule += " Plus concurrent histories (contended caller-supplied ids, concurrent deletes of one id) checked for linearizability and audited at quiescence."
 	}
